@@ -49,6 +49,7 @@ type Prog struct {
 	constTables  map[*ssa.Global]map[int64]*ssa.Const
 	notTable     map[*ssa.Global]bool
 	roles        *Roles
+	normalised   int // functions whose higher-order helper sites were inlined in place (normalise.go)
 }
 
 // brokenf reports that the check itself cannot run (exit 2): never a silent pass.
@@ -108,6 +109,21 @@ func Load(dir string, c Config) *Prog {
 		}
 		p.SPkgs[path] = sp
 	}
+	p.collectFuncs()
+	if n := normaliseHigherOrder(p); n > 0 {
+		p.normalised = n
+		p.collectFuncs()
+	}
+	if len(p.Funcs) == 0 {
+		brokenf("no functions found")
+	}
+	return p
+}
+
+// collectFuncs lists the source functions of the repo packages (with their closures), in source order.
+func (p *Prog) collectFuncs() {
+	prog := p.SSA
+	p.Funcs = nil
 	seen := map[*ssa.Function]bool{}
 	var add func(f *ssa.Function)
 	add = func(f *ssa.Function) {
@@ -148,10 +164,6 @@ func Load(dir string, c Config) *Prog {
 		}
 		return p.Funcs[i].String() < p.Funcs[j].String()
 	})
-	if len(p.Funcs) == 0 {
-		brokenf("no functions found")
-	}
-	return p
 }
 
 // InRepo reports whether f is a source function of one of the loaded repo packages.
